@@ -58,7 +58,7 @@ Contract(
         "start == zone_start(zone_breaks, i)",
         "all(same(results[q], %s) for q in range(0, i))" % _CS("q"),
         "all(isnan(results[q]) for q in range(i, nz))",
-    ])},
+    ], cut=["same(results[i], %s)" % _CS("i")])},
     props=("C02", "C03"),
     kind="tier2",
     native={"gen": "gen_calc_stats"},
